@@ -112,6 +112,12 @@ CHECKS.update({
          "interleaved-vs-isolated transcript comparison + registration oracle + two independent model instances; Coq theorem on the model's product structure"),
 })
 
+CHECKS.update({
+ "C17": ("other", "Partial proof + differential testing. Coq theorems (no axioms): for ANY string each of the three from_string functions returns a definition or raises ValueError and nothing else - the backtracking matcher never exhausts its steps for any pattern and input (general theorem: fuel above pattern size + input length suffices), re.sub always answers, the extension loops make progress, the groups the code indexes are always captured by a successful match; plus the post-regex round trips of C16. NOT proved: that every sentence of the three RFC 4512 grammars is accepted with the fields the grammar denotes - decided by grammar-sentence generation (all spacing / list-form / escape-case choices, the AD quoted-syntax variant) run through implementation, extracted model and an independent RFC 4512 reference parser.",
+         "The grammar clause has no theorem (it needs a stepping proof of the matcher through three patterns of about 500 nodes each).",
+         "grammar-sentence generation + reference parser + model/implementation correspondence; Coq theorems for the totality clause and the regex engine"),
+})
+
 def main():
     m = {
         "version": 1,
